@@ -106,7 +106,11 @@ def _perform_decrypt(obj: EncryptionData, registry: JWERegistry) -> None:
         try:
             cek = decrypt_recipient(alg, enc, recipient, tag)
             cek_set.add(cek)
-        except (AssertionError, JoseError) as error:
+        except AssertionError:
+            # e.g. a recipient without "encrypted_key", or no sender key for ECDH-1PU
+            if registry.verify_all_recipients:
+                raise DecodeError("Invalid recipient")
+        except JoseError as error:
             if registry.verify_all_recipients:
                 raise error
 
